@@ -17,6 +17,12 @@ Pieces (see coq/Properties/C07.v for what is proved):
    every splitting); the ~25 splittings of each stream are judged on the implementation alone: no surviving address,
    complete lines only, same output as every other splitting of the stream.
    Lines of 600 - 2 000 bytes cut the same way are compared with the model case by case (kinds write-mid-*).
+ * buffer ownership: in every write / lwrite / conc case the driver hands each chunk to Write in ONE scratch array that it
+   overwrites after the call returns (io.Writer: the callee must not retain or modify p) and delivers the same chunks to a
+   second scrubber as fresh slices; different sink content -> caller-buffer-retained, a changed array -> caller-buffer-modified
+   (model: Model/SafelogOwn.v, C07_write_no_retention; the model op `write` executes the same delivery).
+ * log sinks other than the standard logger: see log_wiring (http.Server error log of broker / probetest, key
+   log-sink-unscrubbed:<binary>:http-server-errorlog).
 """
 import ipaddress
 import os
@@ -1434,6 +1440,7 @@ def log_wiring(ctx):
     addresses through log.Print and reports what the process's stderr and the -log file received.
     Model: every sink of the standard logger is behind the LogScrubber unless -unsafe-logging was given."""
     runs = {}
+    jobs = []
     for binary, (pkg, base, has) in WIRING.items():
         try:
             exe = vlib.go_test_build(pkg, name="c07_wiring_%s.test" % binary)
@@ -1443,19 +1450,33 @@ def log_wiring(ctx):
         for unsafe in (False, True):
             for log in ((False, True) if has["log"] else (False,)):
                 for verbose in ((False, True) if has["verbose"] else (False,)):
-                  for http in (("plain", "tls") if has.get("http") else ("",)):
-                    res = wiring_variant(exe, binary, unsafe, log, verbose, http)
-                    ctx.count(res["case"], kind="wiring-%s%s%s%s%s" % (binary, "-log" if log else "", "-verbose" if verbose else "",
-                                                                        "-unsafe" if unsafe else "", "-http-" + http if http else ""))
-                    if "error" in res:
-                        ctx.not_shown("log wiring: `%s` %s" % (res["case"], res["error"]))
-                        continue
-                    viol, notes, summary = judge_wiring(res)
-                    for key, what, rp in viol:
-                        ctx.violation(key, what, rp)
-                    for n in notes:
-                        ctx.not_shown(n)
-                    runs[res["case"]] = summary
+                    for http in (("plain", "tls") if has.get("http") else ("",)):
+                        jobs.append((exe, binary, unsafe, log, verbose, http))
+
+    def one(job):
+        # the served variants pick a free port before main() binds it: another process may take it in between
+        # (main() then exits): such a run says nothing about the wiring and is repeated
+        for attempt in range(3):
+            res = wiring_variant(*job)
+            if "error" not in res or not job[5]:
+                break
+        return res
+
+    from concurrent.futures import ThreadPoolExecutor
+    with ThreadPoolExecutor(max_workers=6) as pool:            # independent processes, each mostly waiting
+        results = list(pool.map(one, jobs))
+    for (exe, binary, unsafe, log, verbose, http), res in zip(jobs, results):
+        ctx.count(res["case"], kind="wiring-%s%s%s%s%s" % (binary, "-log" if log else "", "-verbose" if verbose else "",
+                                                            "-unsafe" if unsafe else "", "-http-" + http if http else ""))
+        if "error" in res:
+            ctx.not_shown("log wiring: `%s` %s" % (res["case"], res["error"]))
+            continue
+        viol, notes, summary = judge_wiring(res)
+        for key, what, rp in viol:
+            ctx.violation(key, what, rp)
+        for n in notes:
+            ctx.not_shown(n)
+        runs[res["case"]] = summary
     ctx.extra["log_wiring"] = dict(
         approach="dynamic for all five mains (broker, client, proxy, server, probetest): real main() in-process up to log.SetOutput, "
                  "probe lines through the standard logger, sinks = process stderr, process stdout and the -log file; every "
@@ -1577,11 +1598,15 @@ def run(ctx):
                     "Go's regexp engine: modelled by the leftmost-first backtracking matcher of coq/Model/Regex.v, tied by correspondence only",
                     "python's ipaddress module decides what counts as an address in the failing-input search",
                     "harness/overlay/zz_verif/wiring + <main>/zz_verif_c07_wiring_test.go: main() is run inside a test binary with "
-                    "os.Stderr replaced by a file; what the probe lines show is the wiring of log.SetOutput for the exercised flag sets"]
+                    "os.Stderr / os.Stdout replaced by files; what the probe lines show is the wiring of log.SetOutput for the exercised flag "
+                    "sets; for broker / probetest a handler registered on http.DefaultServeMux by the helper makes net/http write to the "
+                    "error log of the http.Server built in main()"]
     ctx.assumptions += ["model = coq/Model/{Regex,RegexIncl,Scrub}.v over the GENERATED coq/Gen/SafelogPatterns.v",
                         "lines of 3000-20000 bytes (kinds lwrite-implonly-*): every splitting is judged on the implementation only (no surviving "
                         "address, complete lines only, output independent of the write boundaries); the model is compared once per stream "
                         "(single Write) and case by case on lines up to 2000 bytes",
+                        "buffer ownership: the driver's caller reuses one scratch array (overwritten with '7' after every Write) - a Write that "
+                        "changes the caller's slice and restores it before returning is not observable",
                         "bytes >= 0x80 are single symbols of the class [^\\w:] (Go decodes runes; equal output because the delimiters are not consumed)"]
     changed = regenerate_patterns(ctx)
     ctx.extra["patterns_regenerated"] = bool(changed)
